@@ -78,11 +78,20 @@ def generate(batch: str, r: Rng, idx: int, tier: str) -> Dict[str, Any]:
     if idx % 5 == 2:
         feat.update({"lcd": True})
     n = r.child("len").choice([30, 60, 120] if executor == "py-machine" else [30, 60, 120, 200])
+    rx = r.child("expand")
+    expand = []
+    if rx.chance(1, 3):
+        # a RAM-expansion overlay is installed (expand_ram / add_ram_overlay) and the firmware uses its edges
+        expand = [[rx.choice([0x50000, 0x60000, 0x7F000]), rx.choice([0x400, 0x1000, 0x8000])]]
+        feat["xram"] = expand[0]
     scn = machine.gen_machine_scenario(r, executor, feat, boundaries=n, faulty=True)
     scn["final_state"] = True
+    scn["expand"] = expand
     # the interrupt/reset vectors (last bytes of the ROM window) and a few ROM / unpopulated-window bytes are
     # part of "memory": read through the bus at every boundary
     scn["watch"] = scn["watch"] + [[0xFFFFA, 6], [0xC1000, 5], [0x01000, 4]]
+    for xs, xn in expand:
+        scn["watch"] = scn["watch"] + [[xs - 1, 3], [xs + xn - 2, 3]]
     scn["pce500_map"] = bool(r.child("map").chance(1, 2))    # Rust: documented read-only windows configured
     # keyboard interrupts switched off in a quarter of the machines: a configuration flag that must survive too
     scn["kb"] = dict(scn.get("kb") or {})
